@@ -175,18 +175,91 @@ ExpRaw(a, enc) ==
 (* bytes at all; skipping past the form code(s) is tolerated.                                      *)
 ImplicitUnderIndirect(a) == FormOf(a.form).sz = "indirect" /\ FormOf(Inner(a.form, a.p).form).nm = "implicit_const"
 
-(* ---- Attribute::value(): class and payload preservation ---------------- *)
+(* ---- Attribute::value(): what each attribute name makes of a value ------ *)
+(* Per attribute name, the classes DWARF assigns (DWARF 5 Table 7.5, DWARF 2-4 *)
+(* Figure 20, the GNU split-DWARF / macro / locview extensions) decide what a  *)
+(* raw value *means*:                                                          *)
+(*  - a section offset on the name refers to one particular section            *)
+(*    (PtrTarget: lineptr / loclist / rnglist / macptr / addrptr /             *)
+(*    stroffsetsptr / rnglistsptr / loclistsptr);                              *)
+(*  - a constant on the name is a code of one enumeration (EnumTarget), a      *)
+(*    file index, a dwo id, or a plain unsigned number (UnsignedNames);        *)
+(*  - a block on a name of class exprloc is a DWARF expression.                *)
+(* Normalisation must keep the payload and may only move the value to the      *)
+(* variant of *that* meaning - never to another section / enumeration.         *)
 ConstKinds == {"Data1", "Data2", "Data4", "Data8", "Udata", "Sdata"}
-NormClass(rawkind) ==
-    CASE rawkind \in ConstKinds -> {rawkind, "Udata", "FileIndex", "Language", "Encoding", "DecimalSign", "Endianity",
-                                    "Accessibility", "Visibility", "Virtuality", "AddressClass", "IdentifierCase",
-                                    "CallingConvention", "Inline", "Ordering", "DwoId"}
-      [] rawkind = "SecOffset" -> {rawkind, "DebugLineRef", "LocationListsRef", "RangeListsRef", "DebugMacinfoRef",
-                                   "DebugMacroRef", "DebugAddrBase", "DebugStrOffsetsBase", "DebugRngListsBase",
-                                   "DebugLocListsBase"}
-      [] rawkind = "Block" -> {rawkind, "Exprloc"}
-      [] OTHER -> {rawkind}
-NormOk(raw, norm) == norm.v = raw.v /\ norm.kind \in NormClass(raw.kind)
+LoclistNames == {2 (*location*), 25 (*string_length*), 42 (*return_addr*), 56 (*data_member_location*), 64 (*frame_base*),
+                 70 (*segment*), 72 (*static_link*), 74 (*use_location*), 77 (*vtable_elem_location*)}
+PtrTarget(name) ==
+    CASE name \in LoclistNames -> "LocationListsRef"
+      [] name = 16 (*stmt_list*) -> "DebugLineRef"
+      [] name \in {44 (*start_scope*), 85 (*ranges*)} -> "RangeListsRef"
+      [] name = 67 (*macro_info*) -> "DebugMacinfoRef"
+      [] name = 121 (*macros*) -> "DebugMacroRef"
+      [] name = 114 (*str_offsets_base*) -> "DebugStrOffsetsBase"
+      [] name \in {115 (*addr_base*), 8499 (*GNU_addr_base 0x2133*)} -> "DebugAddrBase"
+      [] name \in {116 (*rnglists_base*), 8498 (*GNU_ranges_base 0x2132*)} -> "DebugRngListsBase"
+      [] name = 140 (*loclists_base*) -> "DebugLocListsBase"
+      [] OTHER -> "-"
+(* vendor attributes of a pointer class that a reader may leave as a plain section offset *)
+VendorPtrTarget(name) ==
+    CASE name = 8473 (*GNU_macros 0x2119*) -> "DebugMacroRef"
+      [] name = 8503 (*GNU_locviews 0x2137*) -> "LocationListsRef"
+      [] OTHER -> "-"
+(* enumeration-valued attributes: [kind, bytes of the code] *)
+EnumTarget(name) ==
+    CASE name = 9 -> [kind |-> "Ordering", w |-> 1]
+      [] name = 19 -> [kind |-> "Language", w |-> 2]
+      [] name = 23 -> [kind |-> "Visibility", w |-> 1]
+      [] name = 32 -> [kind |-> "Inline", w |-> 1]
+      [] name = 50 -> [kind |-> "Accessibility", w |-> 1]
+      [] name = 51 -> [kind |-> "AddressClass", w |-> 8]
+      [] name = 54 -> [kind |-> "CallingConvention", w |-> 1]
+      [] name = 62 -> [kind |-> "Encoding", w |-> 1]
+      [] name = 66 -> [kind |-> "IdentifierCase", w |-> 1]
+      [] name = 76 -> [kind |-> "Virtuality", w |-> 1]
+      [] name = 94 -> [kind |-> "DecimalSign", w |-> 1]
+      [] name = 101 -> [kind |-> "Endianity", w |-> 1]
+      [] name \in {58 (*decl_file*), 88 (*call_file*)} -> [kind |-> "FileIndex", w |-> 8]
+      [] name = 8497 (*GNU_dwo_id 0x2131*) -> [kind |-> "DwoId", w |-> 8]
+      [] OTHER -> [kind |-> "-", w |-> 0]
+(* attributes whose constant is an unsigned size / offset / line / column *)
+UnsignedNames == {11 (*byte_size*), 12 (*bit_offset*), 13 (*bit_size*), 18 (*high_pc*), 46 (*bit_stride*), 56 (*data_member_location*),
+                  57 (*decl_column*), 59 (*decl_line*), 81 (*byte_stride*), 87 (*call_column*), 89 (*call_line*)}
+(* attributes of class constant whose signedness depends on a type / context: a reader may  *)
+(* leave them raw or present them as an unsigned or signed number                            *)
+ContextConstNames == {22 (*discr_value*), 28 (*const_value*), 30 (*default_value*), 34 (*lower_bound*), 44 (*start_scope*),
+                      47 (*upper_bound*), 55 (*count*), 78 (*allocated*), 79 (*associated*), 82 (*entry_pc*), 91 (*binary_scale*),
+                      92 (*decimal_scale*), 95 (*digit_count*), 107 (*data_bit_offset*), 111 (*string_length_bit_size*),
+                      112 (*string_length_byte_size*), 113 (*rank*), 136 (*alignment*), 139 (*defaulted*)}
+(* attributes of class exprloc (DWARF 2/3: a location / expression given as a block) *)
+ExprlocNames == LoclistNames \cup {11, 12, 13, 34, 46, 47, 55, 78, 79, 80 (*data_location*), 81, 113 (*rank*),
+                                   126 (*call_value*), 131 (*call_target*), 132 (*call_target_clobbered*),
+                                   133 (*call_data_location*), 134 (*call_data_value*)}
+(* a block here is tolerated either way: DW_AT_call_origin is of class reference (a block is ill-formed); vendor expressions *)
+ExprlocEitherNames == {127 (*call_origin*)} \cup {n \in 8209..8212 : TRUE (*GNU_call_site_value .. target_clobbered 0x2111-0x2114*)}
+IsVendorName(name) == name >= 8192
+
+(* the numeric conversions of a raw value are defined below (UdataOf, Narrow) *)
+NormKinds(name, raw) ==
+    LET u == IF raw.kind \in {"Data1", "Data2", "Data4", "Data8", "Udata"} THEN raw.v
+             ELSE IF raw.kind = "Sdata" /\ ~IsNeg(raw.v) THEN raw.v ELSE <<>>
+        fits(w) == u # <<>> /\ \A i \in DOMAIN u : i > w => u[i] = 0 IN
+    CASE raw.kind \in ConstKinds ->
+           (IF EnumTarget(name).kind # "-" THEN (IF fits(EnumTarget(name).w) THEN {EnumTarget(name).kind} ELSE {raw.kind})
+            ELSE IF name \in UnsignedNames THEN (IF u # <<>> THEN {"Udata"} ELSE {raw.kind})
+            ELSE IF name \in ContextConstNames \/ (IsVendorName(name) /\ name # 8497) THEN {raw.kind, "Udata", "Sdata"}
+            ELSE {raw.kind})
+      [] raw.kind = "SecOffset" ->
+           (IF PtrTarget(name) # "-" THEN {PtrTarget(name)}
+            ELSE IF VendorPtrTarget(name) # "-" THEN {"SecOffset", VendorPtrTarget(name)}
+            ELSE {"SecOffset"})
+      [] raw.kind = "Block" ->
+           (IF name \in ExprlocNames THEN {"Exprloc"}
+            ELSE IF name \in ExprlocEitherNames THEN {"Block", "Exprloc"}
+            ELSE {"Block"})
+      [] OTHER -> {raw.kind}
+NormOk(name, raw, norm) == norm.v = raw.v /\ norm.kind \in NormKinds(name, raw)
 
 (* the numeric conversions of a raw value (<<>> = no conversion):          *)
 (* unsigned: zero extension of the data forms, a non-negative sdata;        *)
